@@ -699,12 +699,47 @@ class SubprocessTestCaseExecutor(TestCaseExecutor):
         )
 
 
+def _rebuild_exception(cls: type[BaseException], args: tuple, state: dict) -> BaseException:
+    """Re-create an exception in the parent process without calling its constructor."""
+    exception = cls.__new__(cls)
+    exception.args = args
+    exception.__dict__.update(state)
+    return exception
+
+
+class _ExceptionTransport:
+    """Pickles an exception as (type, args, state) instead of (type, args) -> type(*args).
+
+    Exceptions whose ``__init__`` signature differs from ``self.args`` cannot be
+    re-created by pickle; dropping them makes a raising statement look like a passing one.
+    """
+
+    def __init__(self, exception: BaseException, *, lossy: bool = False):
+        self._exception = exception
+        self._lossy = lossy
+
+    def __reduce__(self):
+        exception = self._exception
+        if self._lossy:
+            return _rebuild_exception, (type(exception), tuple(map(repr, exception.args)), {})
+        state = {k: v for k, v in vars(exception).items() if dill.pickles(v)}
+        return _rebuild_exception, (type(exception), exception.args, state)
+
+
 def _filter_bad_exceptions(result: ExecutionResult, bad_exceptions: Collection[Exception]) -> None:
-    result.exceptions = {
-        position: exception
-        for position, exception in result.exceptions.items()
-        if exception not in bad_exceptions
-    }
+    kept: dict[int, BaseException] = {}
+    for position, exception in result.exceptions.items():
+        if not any(exception is bad for bad in bad_exceptions):
+            kept[position] = exception
+            continue
+        for transport in (_ExceptionTransport(exception), _ExceptionTransport(exception, lossy=True)):
+            try:
+                dill.loads(dill.dumps(transport))  # noqa: S301
+            except Exception:  # noqa: BLE001, S112
+                continue
+            kept[position] = transport  # type: ignore[assignment]
+            break
+    result.exceptions = kept
 
 
 def _clear_bad_exceptions(result: ExecutionResult) -> None:
